@@ -337,14 +337,27 @@ class Path:
         return g
 
     def _abs_query(self, extra, timeout=800):
-        s = z3.Solver()
-        s.set('timeout', timeout)
-        for p in self.pc:
+        # one incremental solver per path: the path condition only grows (except for the temporary
+        # hypotheses of clause lists / quantifier bodies, detected by comparing the asserted prefix)
+        s = getattr(self, '_abs_solver', None)
+        done = getattr(self, '_abs_done', None)
+        pc = self.pc
+        if s is None or len(done) > len(pc) or any(d is not p for d, p in zip(done, pc)):
+            s = z3.Solver()
+            s.set('timeout', timeout)
+            done = []
+            self._abs_solver, self._abs_done = s, done
+        for p in pc[len(done):]:
             g = self._abstract(p)
             if g is not None:
                 s.add(g)
-        s.add(extra)
-        return s.check()
+            done.append(p)
+        s.push()
+        try:
+            s.add(extra)
+            return s.check()
+        finally:
+            s.pop()
 
     def feasible(self, c):
         if c is True:
@@ -418,8 +431,6 @@ class Path:
 
     def decide(self, conds, why=''):
         if self.quant:
-            import traceback, os
-            if os.environ.get('PYVC_TRACE'): traceback.print_stack()
             raise Unsupported('case split inside a quantifier body')
         if self.pos < len(self.prefix):
             i = self.prefix[self.pos]
@@ -665,9 +676,25 @@ class Path:
         elif isinstance(t, ast.Subscript):
             self.store_subscript(self.eval(t.value), self.eval_index(t.slice), v)
         elif isinstance(t, (ast.Tuple, ast.List)):
-            items = self.unpack(v, len(t.elts), any(isinstance(e, ast.Starred) for e in t.elts))
-            if any(isinstance(e, ast.Starred) for e in t.elts):
-                raise Unsupported('starred assignment')
+            stars = [i for i, e in enumerate(t.elts) if isinstance(e, ast.Starred)]
+            if stars:
+                # a, *rest, z = <iterable with a concrete spine>
+                if len(stars) > 1:
+                    raise Unsupported('two starred targets')
+                allv = self.concrete_iter(v)
+                if allv is None:
+                    raise Unsupported('starred assignment from a symbolic iterable')
+                k = stars[0]
+                after = len(t.elts) - k - 1
+                if len(allv) < len(t.elts) - 1:
+                    raise PyExc(ValueError('not enough values to unpack'))
+                for e, x in zip(t.elts[:k], allv[:k]):
+                    self.assign(e, x)
+                self.assign(t.elts[k].value, self.alloc(LObj(list(allv[k : len(allv) - after]))))
+                for e, x in zip(t.elts[k + 1 :], allv[len(allv) - after :] if after else []):
+                    self.assign(e, x)
+                return
+            items = self.unpack(v, len(t.elts), False)
             for e, x in zip(t.elts, items):
                 self.assign(e, x)
         else:
@@ -712,7 +739,9 @@ class Path:
         c = self.truth(self.eval(s.test))
         if self.spec_mode or self.cfg.asserts_are_obligations(self):
             # in ghost/lemma code an assert is a proof obligation
-            self.oblige(self.cfg.obl_name(self, 'assert', f'L{s.lineno}'), 'assert', c)
+            # `assert cond, 'label'` in ghost/lemma code names the obligation (stable across edits of the sidecar)
+            label = s.msg.value if isinstance(s.msg, ast.Constant) and isinstance(s.msg.value, str) else f'L{s.lineno}'
+            self.oblige(self.cfg.obl_name(self, 'assert', label), 'assert', c)
             return
         if not self.branch(c):
             raise PyExc(AssertionError())
@@ -983,6 +1012,8 @@ class Path:
             if step:
                 step()
             spec.check_inv(self, 'inv-preserved')
+            if getattr(spec, 'mods', None) is not None:
+                spec.check_loop_frame(self)
             if v0 is not None:
                 v1 = spec.variant(self)
                 self.oblige(spec.name('variant-decreases'), 'variant', self.compare_op(ast.Lt(), v1, v0))
@@ -1014,6 +1045,11 @@ class Path:
             return self.obj(it).ext_for(self, it, s, spec)
         if spec is None:
             raise Unsupported(f'for loop over symbolic iterable without invariant at {self.cur_loc}')
+        if isinstance(it, Unknown) and self.skeleton:
+            # skeleton profile: an uninterpreted iterable yields any number of uninterpreted items
+            self.abstraction_used = True
+            self.cut_loop(s, spec, lambda: Unknown('iter'), lambda: self.assign(s.target, Unknown('item')), ())
+            return
         fr = self.scope[0]
         if isinstance(it, SymRange):
             itname = '_it'
@@ -1236,32 +1272,26 @@ class Path:
         return self.alloc(DObj(d))
 
     def ev_JoinedStr(self, n):
-        # f-strings mostly feed log lines / exception messages: opaque.  A plain `{expr}` part whose expression is a
-        # chain of names / attributes / argument-less method calls (f'on_{pdu.name.lower()}': dynamic dispatch by
-        # name) is evaluated; the string is concrete iff every part is a concrete str
+        # f-strings only feed log lines / exception messages
+        # (contract kwarg fstrings='eval': a replacement field without conversion/format spec whose value
+        # is a concrete str/int is formatted exactly -- needed where a name is computed for getattr dispatch)
+        evaluate = getattr(getattr(self.cfg, 'top', None), 'extra', {}).get('fstrings') == 'eval'
         parts = []
+        opaque = False
         for v in n.values:
             if isinstance(v, ast.Constant):
                 parts.append(v.value)
-            elif isinstance(v, ast.FormattedValue) and v.conversion == -1 and v.format_spec is None and self._simple_chain(v.value):
+            elif evaluate:
                 x = self.eval(v.value)
-                if not isinstance(x, str):
-                    return OpaqueStr()
-                parts.append(x)
+                if v.conversion == -1 and v.format_spec is None and type(x) in (str, int):
+                    parts.append(str(x))
+                else:
+                    opaque = True
             else:
                 return OpaqueStr()
+        if opaque:
+            return OpaqueStr()
         return ''.join(parts)
-
-    def _simple_chain(self, e):
-        while True:
-            if isinstance(e, ast.Name):
-                return True
-            if isinstance(e, ast.Attribute):
-                e = e.value
-            elif isinstance(e, ast.Call) and not e.args and not e.keywords and isinstance(e.func, ast.Attribute):
-                e = e.func.value
-            else:
-                return False
 
     def ev_Attribute(self, n):
         return self.getattr(self.eval(n.value), n.attr)
@@ -1790,6 +1820,8 @@ class Path:
             if isinstance(o, BAObj):
                 return self.length(o.val)
             if isinstance(o, LObj):
+                if o.flavor == 'set' and o.items:
+                    raise Unsupported('len of a set with symbolic members')
                 return len(o.items) if o.items is not None else self.length(o.sym)
             if isinstance(o, DObj):
                 return len(o.items)
